@@ -113,7 +113,7 @@ def main(run):
     run.rule = ("R independent UniformReservoirStorage instances per (k, snapshot grid), every third configuration with other library objects (TreeStorage with a seed, other storages, trackers) constructed and used mid-stream and with a second reservoir fed the very same dict objects; exact two-sided binomial cell "
                 "tests with Bonferroni-split budget eps=1e-9 per run: inclusion indicator of individual arrivals "
                 "(k/n), every k-subset for k<=3,n<=7 (1/C(n,k)), pair co-inclusion k(k-1)/(n(n-1)), arrival-time "
-                "bucket of a harness-chosen random stored item (|bucket|/n); evaluations = independent storage "
+                "bucket of a harness-chosen random stored item (|bucket|/n); every size 1..24 with coarse cells; very long streams (n/k up to 4e5, thorough 4e6) judged by the arrival quarter of a random stored item; every other execution drives a bound update method taken before the first update; evaluations = independent storage "
                 "executions; non-trivial = distinct (snapshot, stored subset) outcomes observed")
     run.assumptions = ["executions are independent: fresh objects, library generators seeded once per configuration and left running",
                        f"false-alarm probability <= {EPS} per run; deviations below notes.max_min_detectable_deviation may be missed",
